@@ -44,3 +44,9 @@ package polling
 //@     requires recv == t.pq && arg0 == packets && adds == 0 [C02.polling.send.one.add]
 //@     update adds = adds + 1
 //@   ensures adds == 1 [C02.polling.send.once]
+
+// ---------------------------------------------------------------------------------------------
+// C16. Lock discipline: which mutex guards which fields (every read/write of a guarded field outside the constructor
+// needs that mutex of the same object; checked in lock mode over every function of the package).
+//@ type pollQueue
+//@   guarded_by (mu) packets
